@@ -71,6 +71,10 @@ class Mini:
                 raise Raised(name)
             elif isinstance(st, ast.Assign) and len(st.targets) == 1 and isinstance(st.targets[0], ast.Name):
                 env[st.targets[0].id] = self.ev(st.value, env)
+            elif isinstance(st, ast.AugAssign) and isinstance(st.target, ast.Name):
+                if st.target.id not in env:
+                    raise AnalysisError("table accessor: augmented assignment to unknown name %s" % st.target.id)
+                env[st.target.id] = self.binop(st.op, env[st.target.id], self.ev(st.value, env))
             elif isinstance(st, ast.Return):
                 raise Ret(self.ev(st.value, env))
             elif isinstance(st, (ast.Import, ast.ImportFrom)):
@@ -230,4 +234,20 @@ class Mini:
             return NDA((len(rows), rows[0].shape[0]), [x for r in rows for x in r.v], [x for r in rows for x in r.e])
         if tail == "len" and len(e.args) == 1:
             return len(self.ev(e.args[0], env))
+        if isinstance(e.func, ast.Name) and not e.keywords and self.module.has_fn(e.func.id):
+            # a helper of the same module (a conversion / normalisation step the accessor delegates to): executed too
+            return self.call(e.func.id, [self.ev(a, env) for a in e.args])
+        if tail in ("abs", "fabs", "absolute") and len(e.args) == 1:
+            x = self.ev(e.args[0], env)
+            if isinstance(x, NDA):
+                return NDA(x.shape, [abs(v) for v in x.v], x.e)
+            return abs(x)
+        if tail == "sum" and len(e.args) == 1 and not e.keywords:
+            x = self.ev(e.args[0], env)
+            if isinstance(x, NDA):
+                return sum(x.v, Decimal(0))
+        if tail == "norm" and len(e.args) == 2 and not e.keywords:
+            x, o = self.ev(e.args[0], env), self.ev(e.args[1], env)
+            if isinstance(x, NDA) and len(x.shape) == 1 and o == 1:
+                return sum((abs(v) for v in x.v), Decimal(0))
         raise AnalysisError("table accessor: unsupported call %s" % f)
